@@ -194,7 +194,10 @@ def certificate(m, d, mm, dd, cfg):
         return tot
 
       g_w, g_m = gauss(a), gauss(np.asarray(d.qacc, dtype=np.float64))
-      gap = (g_w - g_m) / (abs(g_m) + abs(g_w) + 1e-9)
+      # float32 qacc (relative error ~1e-6) perturbs the cost by ~1e-12 of its natural scale: the denominator carries
+      # 1e-5 of that scale so that an essentially-zero cost is not compared in relative terms
+      nat = float(a @ M @ a + Minv_q @ M @ Minv_q + np.sum(D[w, :nefc] * jscale**2))
+      gap = (g_w - g_m) / (abs(g_m) + abs(g_w) + 1e-5 * nat + 1e-9)
       st["worst_cost_gap"] = max(st.get("worst_cost_gap", -1.0), gap)
       if gap > cfg["cost_tol"]:
         fails.append({"site": "cost-above-mujoco", "world": w, "cost_mjw": g_w, "cost_at_mujoco_qacc": g_m, "relative_gap": gap, "niter": int(niter[w])})
